@@ -7,7 +7,10 @@ RULE = ("random declaration histories over at most 7 commodities (1-3 components
         "order, prices with 0-14 decimals, tiny, huge and negative prices, 5% with a zero price) through the exported Go API "
         "in-process: Prices.Insert (op C12.ins, the stored map) and Normalize + Price + Valuate for one or two valuation "
         "commodities (op C12.norm, Normalize called 25 times, '!nondet' when two calls differ); plus the decimal primitives "
-        "Div/Truncate/Mul/String on random pairs (op C12.dec).  Non-trivial: the history has an alternative path or cycle "
+        "Div/Truncate/Mul/String on random pairs (op C12.dec); plus journals of prices, opens and transactions (price "
+        "declarations before, on and after the first transaction day; days with only prices, only transactions, only opens) "
+        "loaded with journal.FromPath and run through journal.ComputePrices, Day.Normalized rendered per day (op C12.days: "
+        "the prices of day k must be valid prices of the declarations dated up to day k).  Non-trivial: the history has an alternative path or cycle "
         "(more declared pairs than a forest allows), a redeclaration, more than one component or a zero price; distinct by input.")
 
 TRUSTED_BASE = [
@@ -23,8 +26,8 @@ ASSUMPTIONS = ["decimal exponents stay within int32 (the overflow panics of shop
 
 def plan(tier, seed):
     if tier == "quick":
-        return [("C12", seed, 2000, []), ("C12dec", seed, 4000, [])]
-    return [("C12", seed, 200000, []), ("C12dec", seed, 400000, [])]
+        return [("C12", seed, 2000, []), ("C12dec", seed, 4000, []), ("C12days", seed, 600, [])]
+    return [("C12", seed, 200000, []), ("C12dec", seed, 400000, []), ("C12days", seed, 40000, [])]
 
 
 def search_plan(seed):
@@ -75,6 +78,8 @@ def _shape(c):
 def nontrivial(c):
     if c.op == "C12.dec":
         return True
+    if c.op == "C12.days":
+        return " / " in (c.observed or "")
     s = _shape(c)
     return s["cyclic"] or s["redecl"] or s["comps"] > 1 or s["zero"]
 
@@ -85,6 +90,10 @@ def distribution(cases):
     for c in cases:
         if c.op == "C12.dec":
             d["dec_cases"] += 1
+            continue
+        if c.op == "C12.days":
+            d["days_cases"] = d.get("days_cases", 0) + 1
+            d["days_total"] = d.get("days_total", 0) + (c.observed or "").count(" / ") + 1
             continue
         if c.op == "C12.norm":
             d["norm_cases"] += 1
